@@ -188,6 +188,22 @@ async def run_all(problems):
         return {a: L.FAILED, k: L.KILLED, x: L.CANCELLED, sib: L.COMPLETED, la: L.FAILED, lk: (L.KILLED, L.FAILED),
                 lx: (L.CANCELLED, L.FAILED), ls: L.FAILED}
 
+    async def big_output(s, d):
+        # a verbose task (1 MB on each stream, far more than a pipe buffer) finishes, its dependent runs, logs are complete
+        script = "head -c 1000000 /dev/zero | tr '\\0' 'o'; head -c 1000000 /dev/zero | tr '\\0' 'e' >&2"
+        a = await s.enqueue_task("big", script, str(d), None, [])
+        l = await s.enqueue_task("biglimited", script, str(d), 20, [])
+        b = await s.enqueue_task("after", "exit 0", str(d), None, [a])
+        await settle(s, [a, l, b], timeout=15.0)
+        for nm in ("big", "biglimited"):
+            for ext, ch in ((".stdout", b"o"), (".stderr", b"e")):
+                f = d / ".gwf" / "logs" / (nm + ext)
+                data = f.read_bytes() if f.exists() else None
+                if data != ch * 1000000:
+                    problems.append(f"big output: the log {nm}{ext} holds {None if data is None else len(data)} bytes, the "
+                                    f"task wrote 1000000")
+        return {a: L.COMPLETED, l: L.COMPLETED, b: L.COMPLETED}
+
     async def signalled(s, d):
         # a task whose shell dies from a signal did not succeed (asyncio reports -N): FAILED, dependents do not run
         a = await s.enqueue_task("a", "kill -SEGV $$", str(d), None, [])
@@ -200,6 +216,7 @@ async def run_all(problems):
     for name, cores, fn in (("success+log", 2, ok), ("dependency order", 2, order),
                             ("dependents submitted after the dependency ended badly", 2, late_dependents),
                             ("task killed by a signal", 1, signalled),
+                            ("task with 1 MB of output on each stream", 2, big_output),
                             ("failed dependency then two tasks on one core", 1, fail_then_more),
                             ("missing working directory", 1, missing_dir), ("unknown dependency id", 1, unknown_dep),
                             ("cancel while waiting for a dependency, then two tasks on one core", 1, cancel_waiting),
@@ -226,7 +243,7 @@ def replay(eng, ob, model, seed):
     finally:
         logging.disable(logging.NOTSET)
     if not problems:
-        return {"failed_on_real_code": False, "candidates_tried": 15, "bound": "15 fixed scenarios, <= 9 tasks, 1-2 cores"}
+        return {"failed_on_real_code": False, "candidates_tried": 16, "bound": "16 fixed scenarios, <= 9 tasks, 1-2 cores"}
     p = " ".join(problems)
     wc = "core-semaphore-over-released" if "semaphore holds" in p or "RUNNING at once" in p else (
         "task-left-in-non-final-state" if "is left in state" in p else "local-other")
